@@ -1,13 +1,5 @@
 package main
 
-// One extractor per property. Keep each a few lines; expectations live in Ties/<Cxx>.lean.
-var extractors = map[string]func(e *ext){
-	"C14": func(e *ext) {
-		d := "pkg/koordlet/util/system"
-		e.constInt(d, "CPUShareUnitValue", "CPUShareUnitValue")
-		e.constInt(d, "CPUSharesMinValue", "CPUSharesMinValue")
-		e.constInt(d, "CPUSharesMaxValue", "CPUSharesMaxValue")
-		e.constInt(d, "CFSBasePeriodValue", "CFSBasePeriodValue")
-		e.constInt(d, "CFSQuotaMinValue", "CFSQuotaMinValue")
-	},
-}
+// One extractor per property, each in its own facts_<cxx>.go registering itself in init().
+// Keep each a few lines; expectations live in lean/KoordVerif/Ties/<Cxx>.lean.
+var extractors = map[string]func(e *ext){}
